@@ -74,19 +74,19 @@ type Run struct {
 	lastPanicMsg  string
 
 	// threads (sched.go)
-	threads   []*thread
-	cur       *thread
-	preempts  int
-	timers    []*timer
-	depth     int
-	over      bool
-	endPanic  interface{}
-	finished  chan struct{}
-	wg        sync.WaitGroup
-	chanSeq   int
-	now       int64
-	timerFires int
-	asserts   int
+	threads      []*thread
+	cur          *thread
+	preempts     int
+	timers       []*timer
+	depth        int
+	over         bool
+	endPanic     interface{}
+	finished     chan struct{}
+	wg           sync.WaitGroup
+	chanSeq      int
+	now          int64
+	timerFires   int
+	asserts      int
 	abstractions int
 
 	globals map[*ssa.Global]*value
@@ -97,16 +97,16 @@ type Run struct {
 	lastRecovered    string
 	lastRecoveredMsg string
 
-	mutexes    map[*value]*mutexState
-	wgs        map[*value]*wgState
-	onces      map[*value]*onceState
-	atomicVals map[*value]value
-	timerOf    map[*value]*timer
-	sleeps     []int64
-	noSched    int
-	curFrame   *frame
-	watched    map[*value]string
-	pools      map[*value][]value
+	mutexes         map[*value]*mutexState
+	wgs             map[*value]*wgState
+	onces           map[*value]*onceState
+	atomicVals      map[*value]value
+	timerOf         map[*value]*timer
+	sleeps          []int64
+	noSched         int
+	curFrame        *frame
+	watched         map[*value]string
+	pools           map[*value][]value
 	pcHard          bool
 	hardScanned     int
 	altModel        map[string]uint64
@@ -388,6 +388,12 @@ func (r *Run) branch(c *Term, site string) bool {
 
 // concretize picks a concrete value for t (forking over all feasible values).
 func (r *Run) concretize(t *Term, site string) uint64 {
+	return r.concretizeOpt(t, site, false)
+}
+
+// concretizeOpt with single=true picks one witness and does not fork over the others
+// (used only where an abstraction is recorded).
+func (r *Run) concretizeOpt(t *Term, site string, single bool) uint64 {
 	if t.isConst() {
 		return t.val
 	}
@@ -438,7 +444,9 @@ func (r *Run) concretize(t *Term, site string) uint64 {
 	final := Decision{Kind: "conc", Choice: 0, Val: v, Site: site}
 	r.decs[len(r.decs)-1] = final
 	r.sol.stack[len(r.decs)-1] = final
-	if len(excl)+1 > r.cfg.MaxConcretize {
+	if single {
+		// one witness only
+	} else if len(excl)+1 > r.cfg.MaxConcretize {
 		r.event("UNWIND: more than %d values when concretizing at %s", r.cfg.MaxConcretize, site)
 	} else {
 		nx := append(append([]uint64(nil), excl...), v)
